@@ -27,6 +27,11 @@ type c01IfaceErr struct{ st *status.Status }
 func (e c01IfaceErr) Error() string              { return "c01 iface error" }
 func (e c01IfaceErr) GRPCStatus() *status.Status { return e.st }
 
+// c01PtrErr: an error whose nil pointer is a usable error value
+type c01PtrErr struct{}
+
+func (e *c01PtrErr) Error() string { return "c01 typed nil" }
+
 // failing set copied from the property statement
 var c01Failing = map[gcodes.Code]bool{
 	gcodes.DeadlineExceeded: true,
@@ -43,11 +48,28 @@ func TestVerif_C01_codes_table(t *testing.T) {
 				return
 			}
 		}
+		codes := []uint32{}
 		for code := uint32(0); code <= 40; code++ {
+			codes = append(codes, code)
+		}
+		// magnitudes: aliases of the failing five modulo 2^8 / 2^16 / 2^31, and the type's limits
+		for _, base := range []uint32{1 << 7, 1 << 8, 1 << 15, 1 << 16, 1 << 31} {
+			for _, low := range []uint32{0, 4, 12, 13, 14, 15} {
+				codes = append(codes, base+low, base-1)
+			}
+		}
+		codes = append(codes, 1000, 65535, 1<<31-1, 1<<32-1)
+		for _, code := range codes {
 			for _, k := range []string{"status", "statusnew", "iface"} {
 				if !yield(c01CodeCase{Kind: k, Code: code}) {
 					return
 				}
+			}
+		}
+		// unspecified by the statement (wrapped status, typed nil): must not panic, not judged
+		for _, k := range []string{"wrapped-internal", "wrapped-notfound", "typednil", "joined"} {
+			if !yield(c01CodeCase{Kind: k}) {
+				return
 			}
 		}
 	}
@@ -70,7 +92,23 @@ func TestVerif_C01_codes_table(t *testing.T) {
 		case "iface":
 			err = c01IfaceErr{st: status.New(code, "c01")}
 			wantBenign = !c01Failing[code]
+		case "wrapped-internal", "wrapped-notfound", "typednil", "joined":
+			switch c.Kind {
+			case "wrapped-internal":
+				err = fmt.Errorf("c01 wrap: %w", status.Error(gcodes.Internal, "c01"))
+			case "wrapped-notfound":
+				err = fmt.Errorf("c01 wrap: %w", status.Error(gcodes.NotFound, "c01"))
+			case "typednil":
+				var p *c01PtrErr
+				err = p
+			case "joined":
+				err = errors.Join(context.Canceled, status.Error(gcodes.Unavailable, "c01"))
+			}
+			v.Classes = []string{"unspecified-error-value"}
+			_ = Acceptable(err) // a panic here crashes the check: that is the only verdict
+			return v
 		}
+
 		if code == gcodes.OK && err != nil && c.Kind != "iface" && c.Kind != "plain" && c.Kind != "canceled" {
 			return v.Failf("harness: status with code OK produced a non-nil error")
 		}
@@ -82,6 +120,9 @@ func TestVerif_C01_codes_table(t *testing.T) {
 		}
 		if c.Code > 16 {
 			v.Classes = append(v.Classes, "undefined-code")
+		}
+		if c.Code > 40 {
+			v.Classes = append(v.Classes, "code-magnitude")
 		}
 		if got := Acceptable(err); got != wantBenign {
 			return v.Failf("codes.Acceptable(%s %v) = %v, statement says benign=%v", c.Kind, fmt.Sprint(code), got, wantBenign)
